@@ -194,6 +194,21 @@ def cases(ctx):
                                              rng.choice(DIFF_B + [rng.randrange(128)])])
                         yield "tc19", {"msgs": msgs}
                     i += 1
+    # both velocity fields together on a full grid of small magnitudes (cardinal and diagonal headings, exact integer
+    # speeds, truncation vs rounding show on PAIRS of values, not on one field at a time)
+    top = 41 if quick else 161
+    for st in (1, 2):
+        for a0 in range(0, top, 8):
+            if ctx.mine(i):
+                msgs = []
+                for a in range(a0, min(a0 + 8, top)):
+                    for b in range(top):
+                        for s1 in (0, 1):
+                            for s2 in (0, 1):
+                                msgs.append([st, s1, a, s2, b, rng.randrange(2), rng.randrange(2), rng.randrange(512),
+                                             rng.randrange(2), rng.randrange(128)])
+                yield "tc19", {"msgs": msgs}
+            i += 1
     # vertical rate and difference exhaustively
     for st in (1, 2, 3, 4):
         for lo in range(0, 512, 64):
